@@ -556,8 +556,10 @@ func (i *Interpreter) valuesEqual(a, b interface{}) bool {
 
 // executeValidation executes a validation statement
 func (i *Interpreter) executeValidation(stmt ValidationStatement, env *Environment) (interface{}, error) {
-	// Evaluate the validation function call
-	result, err := i.evaluateFunctionCall(stmt.Call, env)
+	// Evaluate the validation function call. It goes through EvaluateExpression like every
+	// other call, so that a function validating with itself meets the evaluation depth limit
+	// instead of recursing until the Go stack overflows.
+	result, err := i.EvaluateExpression(stmt.Call, env)
 	if err != nil {
 		// If the validation function itself errors, return a validation error
 		return nil, &ValidationError{Message: err.Error()}
